@@ -22,12 +22,17 @@ META = {
             "capacities/format constants regenerated; the extracted model is run against the real squid (memory cache, "
             "shared memory cache, rock, ufs, aufs, diskd) on sequential store/hit/reload/purge scenarios with object "
             "sizes at the slot boundaries (hit/miss pattern, length and Adler-32 of every body, on-disk chain layout of "
-            "rock db and ufs files), and on concurrent-reader and tiny-cache eviction scenarios.",
+            "rock db and ufs files), on header-refresh scenarios (multi-slot objects on rock / shared memory / memory whose stored "
+            "header is rewritten by 304 replies of another length - Rock::HeaderUpdater, MemStore::updateHeaders - and "
+            "then served from the store: body bytes, refreshed headers and the spliced on-disk chain with its partly "
+            "filled middle slot are compared; theorem C10_header_update_keeps_the_body_partial for the chain splice), "
+            "and on concurrent-reader and tiny-cache eviction scenarios.",
     "note": "partial: the theorem is about the transcribed machine (locks at the granularity exclusive writer / reader set / "
             "marked-for-deletion; StoreMap's atomics are C55, mem_hdr's nodes are C49); that the event-driven proxy follows "
             "this discipline on every path rests on the end-to-end correspondence and on the independent byte-for-byte "
-            "oracle over concurrent readers, same-URL replacement and eviction. Not modelled: header updates after 304 "
-            "(MemStore::updateHeaders / rock createUpdateIO), URL/Vary swap-meta comparison, disk I/O errors, SMP workers "
+            "oracle over concurrent readers, same-URL replacement and eviction. The header update after a 304 is "
+            "modelled as a function on chains and a step of the sequential driver only (not an operation of the interleaved "
+            "machine: stale and fresh anchor share the tail slots during the update). Not modelled: URL/Vary swap-meta comparison, disk I/O errors, SMP workers "
             "(shared memory cache is exercised with memory_cache_shared on in one process); a crash in the middle of a "
             "same-key overwrite is C16's finding, not repeated here. Trusted: Coq kernel, extraction, gen/gen_hits.cc, "
             "gen/gen_hitspage.py, vlib/lab.py stubs.",
@@ -118,8 +123,10 @@ class Inst:
                 time.sleep(0.05)
 
     # ---- on-disk layout readers (the implementation side of the layout comparison)
-    def rock_chain(self, key, want_etag):
-        """payload sizes of the chain of the rock db entry with this key whose first slot holds want_etag"""
+    def rock_chain(self, key, want, absent=()):
+        """payload sizes of the chain of the rock db entry with this key whose first slot payload holds every marker of
+        `want` and none of `absent`. The chain is followed through the nextSlot fields (after a header update the
+        fresh prefix slots and the old body slots carry different firstSlot values)."""
         path = os.path.join(self.cdir, "rock")
         k0, k1 = struct.unpack("<QQ", key)
         try:
@@ -135,29 +142,28 @@ class Inst:
                     a, b, esz, psz, ver, fs, ns = struct.unpack("<QQQIIii", h)
                     if (a, b) == (k0, k1) and psz > 0:
                         cells[i] = (esz, psz, fs, ns)
-                for first in sorted(set(c[2] for c in cells.values())):
-                    if first not in cells:
-                        continue
+                best = None
+                for first in sorted(i for i, c in cells.items() if c[2] == i):
                     f.seek(SLOT + SLOT * first + CELL)
-                    head = f.read(min(cells[first][1], 2048))
-                    if want_etag.encode() not in head:
+                    head = f.read(min(cells[first][1], 4096))
+                    if any(w not in head for w in want) or any(w in head for w in absent):
                         continue
                     sizes = []
                     cur = first
                     seen = set()
-                    while cur >= 0 and cur in cells and cur not in seen and cells[cur][2] == first:
+                    while cur >= 0 and cur in cells and cur not in seen:
                         seen.add(cur)
                         sizes.append(cells[cur][1])
-                        esz = cells[cur][0]
                         cur = cells[cur][3]
-                    if cur < 0 and esz == sum(sizes):
-                        return sizes
+                    if cur < 0:
+                        best = sizes
+                return best
         except OSError:
             return None
         return None
 
-    def ufs_file(self, key, want_etag):
-        """size of the swap file holding this key and etag"""
+    def ufs_file(self, key, want, absent=()):
+        """size of the swap file holding this key and the markers"""
         for root, dirs, files in os.walk(self.cdir):
             for fn in files:
                 if len(fn) != 8:
@@ -165,17 +171,19 @@ class Inst:
                 p = os.path.join(root, fn)
                 try:
                     with open(p, "rb") as f:
-                        head = f.read(2048)
-                        if key in head[:64] and want_etag.encode() in head:
+                        head = f.read(4096)
+                        if key in head[:64] and all(w in head for w in want) and not any(w in head for w in absent):
                             return [os.fstat(f.fileno()).st_size]
                 except OSError:
                     pass
         return None
 
-    def layout(self, key, want_etag, expect_total, timeout=3.0):
+    def layout(self, key, want, expect_total, timeout=3.0, absent=()):
+        if isinstance(want, str):
+            want = [want.encode()]
         t0 = time.time()
         while True:
-            r = self.rock_chain(key, want_etag) if self.kind == "rock" else self.ufs_file(key, want_etag)
+            r = self.rock_chain(key, want, absent) if self.kind == "rock" else self.ufs_file(key, want, absent)
             if r is not None and sum(r) == expect_total:
                 return r
             if time.time() - t0 > timeout:
@@ -190,11 +198,15 @@ def _hook(rec, spec):
     return c
 
 
-def origin_spec(rid, v, blen, slow=None, cut=None):
+def origin_spec(rid, v, blen, slow=None, cut=None, xr=None):
     body = body_of(v, blen)
     sp = {"body_b64": base64.b64encode(body).decode(),
           "headers": [["Cache-Control", "max-age=100000"], ["ETag", etag(v)], ["X-U", rid],
                       ["X-Sum", "%010d" % adler(body)]]}
+    if xr is not None:
+        # what the origin says when asked to revalidate: a 304 whose header block differs in LENGTH from the stored one
+        sp["headers"].append(["X-R", xr])
+        sp["cond304"] = True
     if slow:
         sp["splits"] = slow
         sp["split_delay"] = 0.012
@@ -238,7 +250,7 @@ def calibrate():
     t0 = time.time()
     sizes = None
     while time.time() - t0 < 5 and sizes is None:
-        sizes = it.rock_chain(key, etag(1))
+        sizes = it.rock_chain(key, [etag(1).encode()])
         if sizes is None:
             time.sleep(0.05)
     if sizes is None:
@@ -368,11 +380,20 @@ def plan(s):
     return s["_plan"]
 
 
+XR_FIXED = 7      # len("X-R: ") + len("\r\n")
+
+
+def xr_value(n, gen):
+    return (("r%d-" % gen) + "x" * n)[:max(n, 1)]
+
+
 def run_seq(s):
     it = _state["inst"][s["store"]]
     pre = new_ids(s)
     pl = plan(s)
     nver = {}
+    xr = {}            # u -> X-R value the stored header of u carries (None: as first sent)
+    nupd = 0
     toks = []
     nh = 0
     for op in s["ops"]:
@@ -383,16 +404,40 @@ def run_seq(s):
         if op[0] == "purge":
             r, raw = lab.get(it.sq.port, url, method="PURGE", total=10.0)
             toks.append("P" if r is not None and r.status in (200, 404) else "P!status")
+            xr[u] = None
+            continue
+        k = nver.setdefault(u, 1)
+        if op[0] == "update":
+            # revalidation: the origin answers 304 with a header block of another length; squid must refresh the stored
+            # header (Rock::HeaderUpdater / MemStore::updateHeaders) and keep serving the same body
+            x = vs[k - 1]
+            nupd += 1
+            val = xr_value(op[2], nupd)
+            _state["cur"][rid] = origin_spec(rid, x["v"], x["blen"], xr=val)
+            r, raw = lab.get(it.sq.port, url, headers=[("Cache-Control", "max-age=0")], total=20.0)
+            core, mark, hit = judge(r, rid, vs[:k])
+            if not mark and r.get("X-R") != val:
+                mark = "revalidated-reply-without-the-304-headers"
+            xr[u] = val
+            toks.append(tok("U", core, mark))
+            total = (mlen_of(url) if it.disk else 0) + hlen_of(x["blen"]) + XR_FIXED + len(val) + x["blen"]
+            if it.kind == "rock" and it.disk:
+                it.layout(store_key(url), [etag(x["v"]).encode(), ("X-R: %s\r\n" % val).encode()], total)
+            else:
+                time.sleep(0.15)
             continue
         hs = []
         if op[0] == "reload":
-            nver[u] = nver.get(u, 1) + 1
+            nver[u] = k = k + 1
             hs = [("Cache-Control", "no-cache")]
-        k = nver.setdefault(u, 1)
         x = vs[k - 1]
         _state["cur"][rid] = origin_spec(rid, x["v"], x["blen"])
         r, raw = lab.get(it.sq.port, url, headers=hs, total=20.0)
         core, mark, hit = judge(r, rid, vs[:k])
+        if not hit:
+            xr[u] = None
+        if not mark and r.get("X-R") != xr.get(u):
+            mark = "stale-headers-after-update" if hit else "headers-never-sent"
         nh += 1 if hit else 0
         toks.append(tok("H" if hit else "M", core, mark))
     lay = []
@@ -408,7 +453,13 @@ def run_seq(s):
                 continue
             x = pl[str(u)][nver[u] - 1]
             total = mlen_of(url) + hlen_of(x["blen"]) + x["blen"]
-            got = it.layout(store_key(url), etag(x["v"]), total)
+            want = [etag(x["v"]).encode()]
+            absent = [b"X-R: "]
+            if xr.get(u):
+                total += XR_FIXED + len(xr[u])
+                want.append(("X-R: %s\r\n" % xr[u]).encode())
+                absent = []
+            got = it.layout(store_key(url), want, total, absent=absent)
             lay.append("%d=%s" % (u, ",".join(map(str, got)) if got else "-"))
     s["_nh"] = nh
     for u in nver:
@@ -593,17 +644,31 @@ def to_case(s):
                                             " ".join("%d:%d:%d" % (x["v"], hlen_of(x["blen"]), x["blen"]) for x in vs))
     ops = []
     nver = {}
+    xlen = {}          # u -> length of the X-R value in the stored header (0: none), as in run_seq
+    nupd = 0
     rng = random.Random(s.get("wseed", 1))
     for op in s["ops"]:
         u = op[1]
         if op[0] == "purge":
             ops.append("P:%d" % u)
+            xlen[u] = 0
+            continue
+        k = nver.setdefault(u, 1)
+        url = _url("%su%d" % (pre, u))
+        if op[0] == "update":
+            x = pl[str(u)][k - 1]
+            nupd += 1
+            base = hlen_of(x["blen"])
+            oldh = base + (XR_FIXED + xlen[u] if xlen.get(u) else 0)
+            xlen[u] = len(xr_value(op[2], nupd))
+            ops.append("U:%d:%s:%d:%d:%d" % (u, store_key(url).hex(), mlen_of(url), oldh, base + XR_FIXED + xlen[u]))
             continue
         if op[0] == "reload":
-            nver[u] = nver.get(u, 1) + 1
-        k = nver.setdefault(u, 1)
+            nver[u] = k = k + 1
+            xlen[u] = 0
+        elif u not in xlen:
+            xlen[u] = 0
         x = pl[str(u)][k - 1]
-        url = _url("%su%d" % (pre, u))
         sizes = ",".join(str(rng.choice([1, 100, 1460, 4096, 4097, 8192, 16384, 40000])) for _ in range(rng.randrange(0, 5))) or "-"
         ops.append("%s:%d:%s:%d:%d:%d:%d:%s" % ("R" if op[0] == "reload" else "G", u, store_key(url).hex(), mlen_of(url),
                                                hlen_of(x["blen"]), x["v"], x["blen"], sizes))
@@ -695,14 +760,43 @@ def gen_evict(rng, store):
             "par": rng.choice([2, 3, 4])}
 
 
+UPD_STORES = ["rock", "rock", "rock", "shm", "mem"]
+
+
+def gen_upd(rng, store):
+    """a multi-slot object whose stored header is refreshed by 304s of another length, then served from the store"""
+    kind = STORES[store][0]
+    cap = CAPS[kind]
+    def size():
+        if rng.random() < 0.35:
+            return {"tot": rng.choice([2, 3, 4, 6]) * cap + rng.choice([-1, 0, 1, 40])}
+        return {"b": rng.randrange(20000, 100000 if rng.random() < 0.3 else 60000)}
+    nurls = rng.choice([1, 1, 2])
+    ops = []
+    for u in range(nurls):
+        ops += [["get", u], ["get", u]]
+    for _ in range(rng.choice([1, 2, 2, 3])):
+        u = rng.randrange(nurls)
+        ops.append(["update", u, rng.choice([1, 3, 8, 20, 45, 90])])
+        ops.append(["get", u])
+        if rng.random() < 0.3:
+            ops.append(["get", u])
+        if rng.random() < 0.2:
+            ops += [["reload", u, size()], ["get", u]]
+    return {"k": "seq", "upd": True, "store": store, "init": [size() for _ in range(nurls)], "ops": ops,
+            "wseed": rng.randrange(1 << 30)}
+
+
 def gen_scenarios(rng, n):
     out = []
     for i in range(n):
         r = i % 10
-        if r < 6:
+        if r < 5:
             out.append(gen_seq(rng, BIG[(i // 10 + r) % len(BIG)]))
+        elif r < 7:
+            out.append(gen_upd(rng, UPD_STORES[(i // 10 * 2 + r) % len(UPD_STORES)]))
         elif r < 9:
-            out.append(gen_conc(rng, (BIG + ["mem", "shm", "rock"])[(i // 10 * 3 + r) % (len(BIG) + 3)]))
+            out.append(gen_conc(rng, (BIG + ["mem", "shm", "rock"])[(i // 10 * 2 + r) % (len(BIG) + 3)]))
         else:
             out.append(gen_evict(rng, SMALL[(i // 10) % len(SMALL)]))
     return out
@@ -711,13 +805,15 @@ def gen_scenarios(rng, n):
 def kind_fn(s, o):
     if o.startswith("ERR"):
         return "norun"
-    return "%s:%s:%s" % (s["k"], s["store"], "hits" if s.get("_nh") else "nohit")
+    return "%s:%s:%s" % ("upd" if s.get("upd") else s["k"], s["store"], "hits" if s.get("_nh") else "nohit")
 
 
 def run(res, tier):
     res.rule = ("scenarios on one squid per store kind (memory cache, shared memory cache with memory_cache_shared on, rock, "
-                "ufs, aufs, diskd; plus tiny mem/shm/rock/ufs caches): (seq, 60 %) 3-6 sequential GET / forced reload "
-                "with a new version / PURGE operations on 1-2 URLs; (conc, 30 %) 2-4 versions of one URL, each fetched by "
+                "ufs, aufs, diskd; plus tiny mem/shm/rock/ufs caches): (upd, 20 %) a 20-130 KB object on rock/shm/mem is "
+                "stored, hit, revalidated 1-3 times with 304 replies whose X-R header has another length each time, and hit "
+                "again after every refresh; (seq, 50 %) 3-6 sequential GET / forced reload "
+                "with a new version / PURGE operations on 1-2 URLs; (conc, 20 %) 2-4 versions of one URL, each fetched by "
                 "a forced reload from an origin that sends it in 4-9 delayed pieces (25 % cut short) while 3-8 concurrent "
                 "clients request the URL; (evict, 10 %) 24-48 GETs/reloads of 4-8 URLs from 2-4 parallel clients against "
                 "a cache of 256 KB - 1 MB. Half of the object sizes put the end of the stored stream within 2 bytes of a "
